@@ -18,9 +18,9 @@ Proof.
   - intro p. rewrite <- (sched_declared g pi' p Hv'). apply run_ops_fix. exact (wo_declared g pi' Hv').
 Qed.
 
-Theorem det_declared : forall v g pi pi' s s', v_declared v = true -> valid_pi g pi -> valid_pi g pi' ->
+Theorem det_declared : forall v g pi pi' s s', v_declared v = true -> v_inplace v = false -> valid_pi g pi -> valid_pi g pi' ->
   merge_all v g pi s = merge_all v g pi' s'.
 Proof.
-  intros v g pi pi' s s' Hd Hv Hv'. unfold merge_all, ops_of. rewrite Hd.
+  intros v g pi pi' s s' Hd Hc Hv Hv'. unfold merge_all, ops_of. rewrite Hd, Hc.
   rewrite (vp_root g pi Hv), (vp_root g pi' Hv'). f_equal. apply declared_state_det; assumption.
 Qed.
